@@ -143,6 +143,14 @@ class Native:
                 return "fail", {"kind": "no-exc", "exception": repr(e)}
             if not any(allowed):
                 return "fail", {"kind": "raises", "exception": repr(e)}
+            # atomicity: a raising call leaves every argument (and the receiver) as it found it
+            keep = set(getattr(con, "raises_modifies", []))
+            for k, v in kwargs.items():
+                if k in keep:
+                    continue
+                if _show(v) != _show(scope["old_" + k]):
+                    return "fail", {"kind": "exc-frame", "exception": repr(e), "changed": k,
+                                    "before": _show(scope["old_" + k]), "after": _show(v)}
             return "ok", None
         for k, c in raises.items():
             if c:
@@ -163,6 +171,19 @@ class Native:
         return "ok", None
 
     # ---- generators
+    SMALL_NAMES = {"length", "bytes_length", "index", "size", "count", "i", "j", "k", "n", "a", "b", "m",
+                   "multiple", "max_value"}
+
+    def gen_param(self, name, sort, rng, size=8):
+        """ints that the real code uses as sizes / indices are drawn small (a 4 GB bytearray(length)
+        is not an interesting test)."""
+        if sort in ("int", "nat") and name in self.SMALL_NAMES:
+            v = rng.randrange(-2, 14) if rng.random() < 0.85 else rng.choice([252, 253, 254, 255, 256, 40])
+            return abs(v) if sort == "nat" else v
+        if sort == "Optional[int]" and name in self.SMALL_NAMES:
+            return None if rng.random() < 0.3 else rng.randrange(-2, 14)
+        return self.gen(sort, rng, size)
+
     def gen(self, sort, rng, size=8):
         if sort == "int" or sort == "nat":
             r = rng.random()
@@ -237,7 +258,7 @@ class Native:
             if ran >= budget:
                 break
             try:
-                kwargs = {p: self.gen(s, rng, size) for p, s in sorts}
+                kwargs = {p: self.gen_param(p, s, rng, size) for p, s in sorts}
             except KeyError:
                 return None, None, ran
             shown = {k: _show(v) for k, v in kwargs.items()}
@@ -281,7 +302,7 @@ class Native:
             if ran >= budget:
                 break
             try:
-                kwargs = {p: self.gen(s, rng, size) for p, s in sorts}
+                kwargs = {p: self.gen_param(p, s, rng, size) for p, s in sorts}
             except KeyError:
                 return None, None, ran
             shown = {k: _show(v) for k, v in kwargs.items()}
